@@ -928,19 +928,24 @@ func (dsc *dataStoreCommand) restore(keyName, serializedData string, ttl int64, 
 		}
 	}
 
+	// only strings are serialized by DUMP (for any other type the payload carries the type byte and no
+	// content), so only a string can be restored: the type byte of the payload must not decide which
+	// Go type the other commands expect to find in the key
 	payloadLen := binary.BigEndian.Uint32(content[2:6])
-	var serialBytes []byte
-	if payloadLen > 0 {
-		// the length is part of the client's payload: it has to describe bytes that are there
-		if int64(payloadLen)-1 > int64(len(content))-6 {
-			output.data = respErrorString("ERR DUMP payload version or checksum are wrong")
-			return
-		}
-		serialBytes = content[6 : 6+payloadLen-1]
+	if bitflags(content[1]) != FLAG_KEY_TYPE_STRING || payloadLen == 0 {
+		output.data = respErrorString("ERR DUMP payload version or checksum are wrong")
+		return
 	}
 
+	// the length is part of the client's payload: it has to describe bytes that are there
+	if int64(payloadLen)-1 > int64(len(content))-6 {
+		output.data = respErrorString("ERR DUMP payload version or checksum are wrong")
+		return
+	}
+	serialBytes := content[6 : 6+payloadLen-1]
+
 	newSk := dsc.ds.newStoreKeyUnlocked(keyName)
-	newSk.flags = bitflags(content[1])
+	newSk.flags = FLAG_KEY_TYPE_STRING
 	newSk.expiresAt = expiration
 	newSk.payload = serialBytes
 
